@@ -137,13 +137,23 @@ def boundary_obls(prefix):
            (2, 1, (0, 3, 2, 1), "thorough"),
            (3, 1, (0, 2, 1, 1), "quick"), (3, 0, (2, 1, 1), "quick"), (3, 5, (0, 0, 0, 0, 0, 2, 2), "quick"),
            (3, 1, (0, 3, 2, 1), "thorough")]
-    for mode, cl, t, tier in cfg:
+    # scenario obligations: user keys of the bounds concrete, sequences/types/sizes symbolic
+    #   S1: level 1 = [1..2] [3..4] [4..5] (key 4 straddles), level 2 = [1..3]: picking the first file expands inputs[0] over the
+    #       second one, whose boundary file (the third) must follow (add_boundary_inputs on expanded0)
+    #   S2: the same one level deeper with a grandparent [2..9]
+    scen = [(2, 1, (0, 3, 1), "1,2,3,4,4,5,1,3", "S1", "quick"), (1, 1, (0, 3, 1), "1,2,3,4,4,5,1,3", "S1", "quick"),
+            (3, 1, (0, 3, 1), "1,2,3,4,4,5,1,3", "S1", "quick"),
+            (2, 4, (0, 0, 0, 0, 3, 1, 1), "1,2,3,4,4,5,1,3,2,9", "S2", "quick")]
+    for ent in [(m, c, t, None, "", tr) for (m, c, t, tr) in cfg] + scen:
+        mode, cl, t, ukeys, stag, tier = ent
         t = tuple(t) + (0,) * (9 - len(t))
         ncl, n1, n2 = t[cl], t[cl + 1], t[cl + 2]
         mx = max(t)
-        out.append(Obl("%s.%s-C%d-%s" % (prefix, BD_MODES[mode], cl, _lname(t[:7])), "vset/boundary.c",
-                       real=VER_REAL, include_real=INC, kit=KIT,
-                       defs=dict(_levels(t[:7]), VP_MODE=mode, VP_CL=cl, VP_NCL1=n1, VP_NCL2=n2, VP_VEC_CAP=8), unwind=11,
+        defs = dict(_levels(t[:7]), VP_MODE=mode, VP_CL=cl, VP_NCL1=n1, VP_NCL2=n2, VP_VEC_CAP=8)
+        if ukeys:
+            defs["VP_UKEYS"] = ukeys
+        out.append(Obl("%s.%s-C%d-%s%s" % (prefix, BD_MODES[mode], cl, _lname(t[:7]), "-" + stag if stag else ""), "vset/boundary.c",
+                       real=VER_REAL, include_real=INC, kit=KIT, defs=defs, unwind=11,
                        unwindset={"memcmp.0": 2, "memcpy.0": 10, "vp_realloc_ptrs.0": 9,
                                   "ldb_version_get_overlapping_inputs.0": max((2 * t[0] + 1) * t[0] + 1, mx + 1) if cl == 0 else mx + 1,
                                   "ldb_add_boundary_inputs.0": mx + 1, "find_smallest_boundary_file.0": mx + 1,
@@ -156,8 +166,9 @@ def boundary_obls(prefix):
                              3: "compact_range (begin/end independently NULL)"}[mode] +
                             ("" if mode == 0 else ": never-newer-below-older in level and level+1, level+1 overlap completeness, survivors outside the "
                                                   "inputs' hull, grandparents, trivial-move rule, compact pointer"),
-                       bounds="compaction level %d, files per level %s (sizes 0..4000, max_file_size 100), 1-byte user keys 0..15 that may "
-                              "straddle adjacent files, sequences 0..7" % (cl, t[:7])))
+                       bounds="compaction level %d, files per level %s (sizes 0..4000, max_file_size 100), %s, sequences 0..7"
+                              % (cl, t[:7], ("user keys of the file bounds CONCRETE (%s: smallest,largest per file), one key straddling two files" % ukeys)
+                                 if ukeys else "1-byte user keys 0..15 that may straddle adjacent files")))
     return out
 
 
